@@ -1,5 +1,6 @@
 import Poulpy.Lemmas.Avx
 import Poulpy.Lemmas.AvxIndex
+import Poulpy.Lemmas.AvxQ120
 /-
 C10 — all back ends give bit-identical results: lane level.
 
@@ -414,5 +415,56 @@ example : ofI (znxAutomorphism (-5) (toI [1, 2, 3, 4, 5, 6, 7, 8])) = [1, 4, 7, 
 theorem inv_mod_pow2_correct (p : W) (bits : Nat) (h1 : 1 ≤ bits) (hb : bits ≤ 63) (hodd : p &&& 1#64 = 1#64) :
     ((invModPow2 p bits).toNat * p.toNat) % 2 ^ bits = 1 ∧ (invModPow2 p bits).toNat < 2 ^ bits := inv_spec p bits h1 hb hodd
 example : invModPow2 11#64 4 = 3#64 ∧ invModPow2 0xFFFFFFFFFFFFFFFB#64 6 = 51#64 := by decide
+
+/-! ### NTT120 AVX integer kernels with a scalar twin (`ntt120/arithmetic_avx.rs`, `mat_vec_avx.rs`, `vec_znx_dft_consume.rs`)
+
+Lanes are `u64` values as `Nat` with explicit `% 2^64` after every `add/sub_epi64` (`Model/AvxQ120.lean`). -/
+section Q120
+open Avx.Q120
+
+/-- the Primes30 moduli and the derived constants are in the range the reductions need -/
+theorem primes30_ranges : ∀ q ∈ Q, 2 ^ 29 < q ∧ q < 2 ^ 30 := by decide
+
+/-- `cond_sub` = one conditional subtraction (lanes below `2^63`, where the signed compare is the unsigned order) -/
+theorem cond_sub_eq (x q : Nat) (hx : x < 2 ^ 63) (hq : q < 2 ^ 63) : condSub x q = if q ≤ x then x - q else x :=
+  condSub_eq x q hx hq
+example : condSub 7 5 = 2 ∧ condSub 3 5 = 3 := by decide
+
+/-- `barrett_reduce(tmp, q, mu) = tmp % q` for every modulus of the Primes30 shape and every `tmp < 2^61` — the
+reference code uses `%` -/
+theorem barrett_reduce_eq_mod (tmp q mu : Nat) (hq1 : 2 ^ 29 < q) (hq2 : q < 2 ^ 30) (hmu : mu = 2 ^ 61 / q) (ht : tmp < 2 ^ 61) :
+    barrett tmp q mu = tmp % q := barrett_eq tmp q mu hq1 hq2 hmu ht
+example : barrett (2 ^ 61 - 1) 1073479681 (2 ^ 61 / 1073479681) = (2 ^ 61 - 1) % 1073479681 := by decide
+
+/-- `reduce_b_to_canonical` + `c_from_b_avx2`, one prime lane = `c_from_b_ref` (`r = x % q`, `(r << 32) % q`) for every
+q120b lane `x < q·2^33` -/
+theorem c_from_b_avx_eq_ref (x q mu pow32 : Nat) (hq1 : 2 ^ 29 < q) (hq2 : q < 2 ^ 30) (hmu : mu = 2 ^ 61 / q)
+    (hp : pow32 = 2 ^ 32 % q) (hx : x < q * 2 ^ 33) : cFromBLane x q mu pow32 = cFromBRef x q :=
+  cFromB_eq x q mu pow32 hq1 hq2 hmu hp hx
+example : cFromBLane (1073479681 * 2 ^ 33 - 1) 1073479681 (2 ^ 61 / 1073479681) (2 ^ 32 % 1073479681)
+    = cFromBRef (1073479681 * 2 ^ 33 - 1) 1073479681 := by decide
+
+/-- `b_from_znx64_avx2` lane = `b_from_znx64_ref` element for every `i64` bit pattern, and the lane is congruent to the
+signed coefficient modulo `q` -/
+theorem b_from_znx64_avx_eq_ref (x oq : Nat) (hx : x < 2 ^ 64) (ho : oq < 2 ^ 64) : bFromZnx64Lane x oq = bFromZnx64Ref x oq :=
+  bFromZnx64_eq x oq hx ho
+theorem b_from_znx64_represents (x q : Nat) (hx : x < 2 ^ 64) (hq0 : 0 < q) (hq : q < 2 ^ 63) :
+    ((bFromZnx64Ref x (q - 2 ^ 63 % q) : Nat) : Int) % q = (sgn x) % q := bFromZnx64_congr x q hx hq0 hq
+example : bFromZnx64Lane (2 ^ 64 - 1) (1073479681 - 2 ^ 63 % 1073479681) % 1073479681 = 1073479680 := by decide
+
+/-- q120b × q120c dot product: no 64-bit overflow and AVX = reference = exact integer expression for every
+`ell ≤ 10 000` (the documented limit), every split point `15 ≤ h ≤ 32` and reduction constants `< 2^30` -/
+theorem mat_vec_bbc_no_overflow (h s2l s2h : Nat) (l : List (Nat × Nat)) (hl : Lanes l) (hlen : l.length ≤ 10000)
+    (hh1 : 15 ≤ h) (hh2 : h ≤ 32) (hs1 : s2l < 2 ^ 30) (hs2 : s2h < 2 ^ 30) :
+    bbcAvx h s2l s2h l = bbcExact h s2l s2h l ∧ bbcRef h s2l s2h l = bbcExact h s2l s2h l ∧ bbcExact h s2l s2h l < 2 ^ 64 :=
+  bbc_no_overflow h s2l s2h l hl hlen hh1 hh2 hs1 hs2
+example : bbcAvx 24 5 7 [(2 ^ 64 - 1, 2 ^ 64 - 1), (3, 4)] = bbcRef 24 5 7 [(2 ^ 64 - 1, 2 ^ 64 - 1), (3, 4)] := by decide
+
+/-- `vec_znx_dft_consume`: the in-place `q120b → i128` compaction never overwrites an element it still has to read -/
+theorem dft_consume_no_clobber (n k c k' c' : Nat) (hc : c < n) (hc' : c' < n) (later : k < k' ∨ (k = k' ∧ c < c')) :
+    2 * n * k + 2 * c + 1 < 4 * n * k' + 4 * c' := consume_no_clobber n k c k' c' hc hc' later
+example : 2 * 8 * 1 + 2 * 7 + 1 < 4 * 8 * 2 + 4 * 0 := by decide
+
+end Q120
 
 end C10
